@@ -11,7 +11,7 @@ RULE = ('input strings built from tokens: TEXT (may contain "[", lone ESC, newli
         'several sequences at one position, at the very start/end), non-SGR CSI sequences, an unterminated tail; a second '
         'free-form generator over {ESC,[,digits,;,:,?,space,m,A,H,x}; a third sub-check enumerates all token strings '
         'over a 9-token alphabet up to length 5/6. Non-trivial = >=1 SGR sequence with >=2 codes and an extended-colour '
-        'group that is not first in its sequence, or >=3 SGR sequences; distinct by input string.')
+        'group that is not first in its sequence, or >=2 SGR sequences; distinct by input string.')
 ASSUMPTIONS = ['style not asserted (text still is) for: empty parameter inside a non-empty sequence, 38/48/58 without a '
                'complete group, colour values > 255, non-numeric parameters',
                'inputs in which some CSI body contains characters outside 0x20-0x3F are only required not to crash '
@@ -76,7 +76,7 @@ def eval_parse(case):
         o.skipped = 'ambiguous-style' if 'tokenisation' not in tags else 'ambiguous-tokenisation'
     if not (vals[0].base_str == vals[1].base_str and per_char(vals[0]) == per_char(vals[1])):
         o.fail('classes-differ', '%r: %s vs %s' % (s, describe(vals[0]), describe(vals[1])))
-    nt = nseq >= 3
+    nt = nseq >= 2
     for b in re.findall('\x1b\\[([0-9;]*)m', s):
         toks = b.split(';')
         for i, t in enumerate(toks):
@@ -105,7 +105,8 @@ def strat_tokens():
 
 
 def strat_free():
-    alpha = ['\x1b[', '\x1b[', '\x1b', '[', '0', '1', '2', '3', '4', '5', '8', ';', ';', ':', '?', ' ', 'm', 'm', 'A', 'H', 'x', 'é']
+    alpha = ['\x1b[', '\x1b[', '\x1b[', '\x1b', '[', '0', '1', '2', '3', '4', '5', '8', ';', ';', ';', 'm', 'm', 'm', 'm', 'A', 'H', 'x', 'é', 'a', 'b',
+             '38;5;', '48;2;1;2;', '58;5;9', '22', '39', '31', '1;', ';4', ':', '?', ' ']
     return st.lists(st.sampled_from(alpha), max_size=30).map(lambda l: {'s': ''.join(l)})
 
 
